@@ -69,6 +69,7 @@ type Unit struct {
 	quantOK         bool
 	sliceConstLen   map[string]int
 	axiomErrs       []string
+	lastMonBase     map[*Monitor]*monBase
 	enumTag         map[string]*enumInfo // slice term -> the map whose keys it enumerates (after the loop)
 	usedInvs        map[string]bool
 	hparents        map[string][]string
@@ -954,7 +955,7 @@ func (fr *Frame) derefBase(p *Val, st *State, pos token.Pos, what string) *Val {
 // assumeCellInv: the declared type invariant holds for cells that existed before the call
 func (fr *Frame) assumeCellInv(a *Val, st *State) {
 	u := fr.u
-	if len(a.Sels) != 0 || a.Cell == nil {
+	if a.Cell == nil {
 		return
 	}
 	n, ok := a.Cell.(*types.Named)
@@ -967,12 +968,18 @@ func (fr *Frame) assumeCellInv(a *Val, st *State) {
 		return
 	}
 	h := u.heapOf(st, a.Heap)
+	if len(a.Sels) != 0 && !(strings.HasPrefix(h, "|H0:") || strings.HasPrefix(h, "|Hh:")) {
+		// a field of the cell is read through a heap this function has written itself: the invariant of the
+		// cell is not assumed there
+		return
+	}
 	ck := "inv:" + h + "@" + a.Ref
 	if u.frameDone[ck] {
 		return
 	}
 	u.frameDone[ck] = true
 	cell := term(u.sel1(h, a.Ref), a.Cell)
+	cell.Ref = a.Ref // the address of the cell (for ghost state keyed by address, e.g. signalled(x))
 	u.assumeInv(fr, invs, cell, st, fmt.Sprintf("(and (distinct %s nil) (< (birth %s) %s))", a.Ref, a.Ref, u.entryNow))
 }
 
